@@ -168,6 +168,10 @@ pub trait UNode {
     fn set_extras(&self) -> Option<(i64, u64, f64)> {
         None
     }
+    /// SetSketch only: merge a sketch of these items (same parameters) into this one
+    fn merge_items(&mut self, _ids: &[u64]) -> bool {
+        false
+    }
 }
 
 // ---------- SuperMinHash ----------
@@ -235,7 +239,7 @@ impl_smh2!(u64);
 impl_smh2!(u32);
 
 // ---------- SetSketcher ----------
-struct NSet<I: num::Integer, T, H: Hasher + Default>(SetSketcher<I, T, H>);
+struct NSet<I: num::Integer, T, H: Hasher + Default>(SetSketcher<I, T, H>, SetSketchParams);
 macro_rules! impl_set {
     ($I:ty) => {
         impl<T: Elem, H: Hasher + Default> UNode for NSet<$I, T, H> {
@@ -265,6 +269,13 @@ macro_rules! impl_set {
                     self.0.get_nb_overflow(),
                     self.0.get_cardinal_stats().0,
                 ))
+            }
+            fn merge_items(&mut self, ids: &[u64]) -> bool {
+                let mut other = SetSketcher::<$I, T, H>::new(self.1, BuildHasherDefault::<H>::default());
+                for i in ids {
+                    other.sketch(&T::from_id(*i)).unwrap();
+                }
+                self.0.merge(&other).is_ok()
             }
         }
     };
@@ -333,10 +344,10 @@ fn mk<T: Elem, H: Hasher + Default + 'static>(spec: &USpec) -> Box<dyn UNode> {
         UKind::Smh2U64 => Box::new(NSmh2::<u64, T, H>(SuperMinHash2::new(m, bh))),
         UKind::Smh2U32 => Box::new(NSmh2::<u32, T, H>(SuperMinHash2::new(m, bh))),
         UKind::SetU16 => {
-            Box::new(NSet::<u16, T, H>(SetSketcher::new(spec.setp.unwrap().params(m), bh)))
+            Box::new(NSet::<u16, T, H>(SetSketcher::new(spec.setp.unwrap().params(m), bh), spec.setp.unwrap().params(m)))
         }
         UKind::SetU32 => {
-            Box::new(NSet::<u32, T, H>(SetSketcher::new(spec.setp.unwrap().params(m), bh)))
+            Box::new(NSet::<u32, T, H>(SetSketcher::new(spec.setp.unwrap().params(m), bh), spec.setp.unwrap().params(m)))
         }
         UKind::OptF64 => Box::new(NOpt::<f64, T, H>(OptDensMinHash::new(m, bh))),
         UKind::OptF32 => Box::new(NOpt::<f32, T, H>(OptDensMinHash::new(m, bh))),
